@@ -171,6 +171,7 @@ type c18Case struct {
 	eofSep     bool
 	errAt      int
 	cbErrAt    int
+	cbErr      error // what the failing callback returns (nil = errCB)
 	wellFormed bool
 }
 
@@ -180,10 +181,14 @@ var errCB = errors.New("injected callback error")
 func c18Run(c c18Case, fail func(sig, msg string), rep *vh.Report) string {
 	rd := &c18Reader{data: c.data, mode: c.mode, errAt: c.errAt, eofSep: c.eofSep}
 	var cbs []c18CB
+	cbErr := c.cbErr
+	if cbErr == nil {
+		cbErr = errCB
+	}
 	cb := func(cd ChunkData) error {
 		if c.cbErrAt >= 0 && len(cbs) == c.cbErrAt {
 			cbs = append(cbs, c18CB{start: cd.Start, init: cd.IsInitSegment, data: append([]byte{}, cd.Data...), delivered: rd.delivered})
-			return errCB
+			return cbErr
 		}
 		cbs = append(cbs, c18CB{start: cd.Start, init: cd.IsInitSegment, data: append([]byte{}, cd.Data...), delivered: rd.delivered})
 		return nil
@@ -200,8 +205,8 @@ func c18Run(c c18Case, fail func(sig, msg string), rep *vh.Report) string {
 	}
 	if c.cbErrAt >= 0 && len(cbs) > c.cbErrAt {
 		rep.Hit("C18.err")
-		if !errors.Is(err, errCB) {
-			fail("C18.err:callback-error-lost", fmt.Sprintf("%s: callback %d failed, Parse returned %v", c.name, c.cbErrAt, err))
+		if err != cbErr && !errors.Is(err, cbErr) {
+			fail("C18.err:callback-error-lost", fmt.Sprintf("%s: callback %d failed with %v, Parse returned %v", c.name, c.cbErrAt, cbErr, err))
 		}
 		if len(cbs) != c.cbErrAt+1 {
 			fail("C18.err:callback-after-error", fmt.Sprintf("%s: %d callbacks after failing callback", c.name, len(cbs)-c.cbErrAt-1))
@@ -439,14 +444,19 @@ func TestVerifC18(t *testing.T) {
 					rep.AddTrans(1)
 				}
 			}
-			for e := 0; e < 4; e++ {
-				c := c18Case{name: fmt.Sprintf("cberr/%s/%d", name, e), data: data, bufSize: 16, mode: "full", errAt: -1, cbErrAt: e, wellFormed: true}
-				rep.Outcome(c18Run(c, func(sig, msg string) {
-					rep.Violate(strings.SplitN(sig, ":", 2)[0], sig, msg, map[string]any{"case": c.name})
-				}, rep))
-				rep.AddExecs(1)
-				rep.AddStates(1)
-				rep.AddTrans(1)
+			// the callback's error is the caller's own value: the parser's own end-of-input values are among them
+			for ei, ce := range []error{errCB, io.EOF, io.ErrUnexpectedEOF, fmt.Errorf("sink closed: %w", io.EOF)} {
+				for e := 0; e < 4; e++ {
+					for _, mode := range []string{"full", "one"} {
+						c := c18Case{name: fmt.Sprintf("cberr/%s/%d/err%d/%s", name, e, ei, mode), data: data, bufSize: 16, mode: mode, errAt: -1, cbErrAt: e, cbErr: ce, wellFormed: true}
+						rep.Outcome(c18Run(c, func(sig, msg string) {
+							rep.Violate(strings.SplitN(sig, ":", 2)[0], sig, msg, map[string]any{"case": c.name})
+						}, rep))
+						rep.AddExecs(1)
+						rep.AddStates(1)
+						rep.AddTrans(1)
+					}
+				}
 			}
 		}
 	}
